@@ -28,4 +28,10 @@ for i in range(1, 21):
     out.append('*Stated assumptions and bounds:*')
     for a in getattr(hm, 'ASSUMPTIONS', []): out.append('- ' + a)
     out.append('')
-print('\n'.join(out))
+text = '\n'.join(out)
+if '--update' in sys.argv:
+    p = os.path.join(V, 'DESIGN.md'); d = open(p).read()
+    a = d.index('<!-- ASBUILT-BEGIN -->') + len('<!-- ASBUILT-BEGIN -->'); b = d.index('<!-- ASBUILT-END -->')
+    open(p, 'w').write(d[:a] + '\n' + text + '\n' + d[b:]); print('DESIGN.md updated (%d lines)' % len(out))
+else:
+    print(text)
